@@ -24,6 +24,7 @@ import (
 	"math/rand"
 	"os"
 	"path/filepath"
+	"regexp"
 	"runtime"
 	"sort"
 	"strings"
@@ -64,6 +65,7 @@ type Input struct {
 	Statements []Stmt   `json:"statements"`
 	Repo       string   `json:"repo"`
 	World      []Store  `json:"world"`
+	RefOk      bool     `json:"refOk"`
 	IdentityOk bool     `json:"identityOk"`
 	Plugin     string   `json:"plugin"`
 	Backend    string   `json:"backend"`
@@ -160,7 +162,16 @@ var rootCA = map[int]bool{rootA: true, rootB: true, rootU: true}
 // ---- abstract cases ------------------------------------------------------------------------
 
 var storeTypes = []string{"ca", "signingAuthority", "tsa"}
-var storeNames = []string{"alpha", "beta", "gamma"}
+
+// storeNames is the pool of store names of the current scenario (set by genCase): plain names,
+// or names that differ in letter case only - different stores (different directories on this
+// case-sensitive file system, different keys of the in-memory store).
+var storeNames = storeNameSets[0]
+var storeNameSets = [][]string{
+	{"alpha", "beta", "gamma"}, {"alpha", "beta", "gamma"},
+	{"acme-rockets", "Acme-Rockets", "ACME-ROCKETS"},
+	{"alpha", "Alpha", "beta"},
+}
 
 // place is what the generator put under one (type, name).
 type place struct {
@@ -217,10 +228,11 @@ type call struct {
 	kind, scheme, chain, repo, world string
 	plugin                           string // "none" | "identity-success" | "identity-failure" | "identity+revocation-success" | "identity+revocation-failure" | "revocation-only"
 	phase                            string // "prelude:<kind>" | "test" | "repeat"
+	refForm                          string // "" (path@digest) | "tag@digest" | "tag" | "digest-only"
 }
 
 func (c call) String() string {
-	return c.kind + "/" + c.scheme + "/chain" + c.chain + "/" + c.repo + "/world=" + c.world + "/plugin=" + c.plugin
+	return c.kind + "/" + c.scheme + "/chain" + c.chain + "/" + c.repo + c.refForm + "/world=" + c.world + "/plugin=" + c.plugin
 }
 
 func wantType(scheme string) string {
@@ -230,7 +242,50 @@ func wantType(scheme string) string {
 	return "ca"
 }
 
-var scopePool = []string{"reg.example/a", "reg.example/b", "reg.example/c"}
+// scopePool is the pool of registry scopes (= artifact paths) of the current scenario (set by
+// genCase): plain ones, or spellings that some registry client would treat as "the same"
+// registry - Docker Hub aliases, default ports, localhost forms, letter case of the host,
+// punycode hosts. For the verifier they are different scopes: a statement matches only the exact
+// spelling of the artifact path, everything else falls to the wildcard statement or to none.
+var scopePool = scopePools[0]
+var scopePools = [][]string{
+	{"reg.example/a", "reg.example/b", "reg.example/c"}, {"reg.example/a", "reg.example/b", "reg.example/c"},
+	{"docker.io/acme/app", "index.docker.io/acme/app", "registry-1.docker.io/acme/app"},
+	{"docker.io/library/alpine", "docker.io/alpine", "registry-1.docker.io/library/alpine"},
+	{"localhost:5000/app", "localhost/app", "127.0.0.1:5000/app"},
+	{"reg.example/a", "reg.example:443/a", "reg.example:5000/a"},
+	{"REG.example/a", "reg.example/a", "Reg.Example/a"},
+	{"xn--bcher-kva.example/app", "xn--bcher-kva.example:443/app", "buecher.example/app"},
+}
+
+const noneRepo = "ghcr.io/none/none"
+
+// scopeFormat: the harness's own copy of the registry scope format (distribution specification:
+// domain[:port]/repository) - what makes a reference's path acceptable at all.
+var domainRx = regexp.MustCompile(`^(?:[a-zA-Z0-9]|[a-zA-Z0-9][a-zA-Z0-9-]*[a-zA-Z0-9])(?:(?:\.(?:[a-zA-Z0-9]|[a-zA-Z0-9][a-zA-Z0-9-]*[a-zA-Z0-9]))+)?(?::[0-9]+)?$`)
+var repositoryRx = regexp.MustCompile(`^[a-z0-9]+(?:(?:(?:[._]|__|[-]*)[a-z0-9]+)+)?(?:(?:/[a-z0-9]+(?:(?:(?:[._]|__|[-]*)[a-z0-9]+)+)?)+)?$`)
+
+func scopeFormat(path string) bool {
+	d, rp, ok := strings.Cut(path, "/")
+	return ok && domainRx.MatchString(d) && repositoryRx.MatchString(rp)
+}
+
+// reference renders the artifact reference of a call and what the model is told about it.
+func reference(repo, form string) (ref, path string, ok bool) {
+	switch form {
+	case "tag@digest":
+		path, ref = repo+":v1", repo+":v1@"+target.Digest.String()
+	case "tag":
+		path, ref = repo+":v1", repo+":v1" // no digest at all
+		return ref, path, false
+	case "digest-only":
+		path, ref = "", "@"+target.Digest.String()
+	default:
+		path, ref = repo, repo+"@"+target.Digest.String()
+	}
+	return ref, path, scopeFormat(path)
+}
+
 var malformedValues = []string{"alpha", "ca", "", ":alpha", "ca:", "signingAuthority:", "ca:alpha:beta", "signingAuthority:beta:ca", "CA:alpha",
 	"x509:alpha", "ca: alpha", " ca:alpha", "ca;alpha", "tsa", "ca:..", "signingauthority:gamma", "ca:alpha ", "::"}
 
@@ -308,6 +363,8 @@ func genCase(r *rand.Rand) acase {
 	chain := chainIDs[a.chain]
 
 	// statements and scopes
+	storeNames = storeNameSets[r.Intn(len(storeNameSets))]
+	scopePool = scopePools[r.Intn(len(scopePools))]
 	nst := 1 + r.Intn(3)
 	a.naming = pick(r, namingModes)
 	a.names = append([]string{}, nameFamilies[a.naming]...)
@@ -344,7 +401,7 @@ func genCase(r *rand.Rand) acase {
 	case x < 9:
 		a.repo = pick(r, scopePool)
 	default:
-		a.repo = "reg.example/none"
+		a.repo = noneRepo
 	}
 	// which statement applies (generator's own view, used only to steer the distribution)
 	app := -1
@@ -628,7 +685,7 @@ func genCase(r *rand.Rand) acase {
 	}
 
 	// the prelude: what the same verifier verifies before the case under test
-	kinds := []string{"otherScheme", "otherChain", "otherStatement", "otherDoc", "otherDocOtherScheme", "worldSwap", "worldSwap", "worldSwapBroken", "otherPlugin"}
+	kinds := []string{"otherScheme", "otherChain", "otherStatement", "otherDoc", "otherDocOtherScheme", "worldSwap", "worldSwap", "worldSwapBroken", "otherPlugin", "otherRefForm"}
 	np := 0
 	switch x := r.Intn(20); {
 	case x < 5:
@@ -655,6 +712,16 @@ func otherOf(r *rand.Rand, xs []string, not string) string {
 // history lists the verifications of a scenario, in order: prelude, test, repeat.
 func history(r *rand.Rand, a acase) []call {
 	test := call{kind: a.testKind, scheme: a.scheme, chain: a.chain, repo: a.repo, world: "base", plugin: a.plugin, phase: "test"}
+	if a.testKind == "oci" {
+		switch x := r.Intn(40); {
+		case x < 3:
+			test.refForm = "tag@digest"
+		case x < 4:
+			test.refForm = "tag"
+		case x < 5:
+			test.refForm = "digest-only"
+		}
+	}
 	plugins := []string{"none", "identity-success", "identity-failure", "identity+revocation-success", "identity+revocation-failure", "revocation-only"}
 	otherScheme := otherOf(r, []string{"x509", "signingAuthority"}, a.scheme)
 	name := a.name
@@ -669,7 +736,7 @@ func history(r *rand.Rand, a acase) []call {
 			c.chain = otherOf(r, chainNames, a.chain)
 		case "otherStatement":
 			if a.testKind == "oci" {
-				c.repo = otherOf(r, append(append([]string{}, scopePool...), "reg.example/none"), a.repo)
+				c.repo = otherOf(r, append(append([]string{}, scopePool...), noneRepo), a.repo)
 			} else {
 				c.repo = otherOf(r, append(append([]string{}, a.names...), a.name(-1)), a.repo)
 			}
@@ -693,8 +760,12 @@ func history(r *rand.Rand, a acase) []call {
 				}
 				c.repo = a.stmts[k].Scopes[0]
 				if c.repo == "*" {
-					c.repo = "reg.example/none"
+					c.repo = noneRepo
 				}
+			}
+		case "otherRefForm":
+			if c.kind == "oci" {
+				c.refForm = otherOf(r, []string{"", "tag@digest", "tag"}, test.refForm)
 			}
 		case "otherPlugin":
 			c.plugin = otherOf(r, plugins, a.plugin)
@@ -1001,9 +1072,13 @@ func (sc *scenario) close() {
 // verify performs one verification of the history on the scenario's verifier.
 func (sc *scenario) verify(cl call) (Input, Obs) {
 	a := sc.a
-	in := Input{Scheme: cl.scheme, Chain: chainIDs[cl.chain], Repo: cl.repo, Backend: a.backend, Format: a.format,
+	in := Input{Scheme: cl.scheme, Chain: chainIDs[cl.chain], Repo: cl.repo, RefOk: true, Backend: a.backend, Format: a.format,
 		Kind: cl.kind, World: sc.worlds[cl.world], History: append([]string{}, sc.history...),
 		Plugin: cl.plugin, IdentityOk: !strings.HasSuffix(cl.plugin, "-failure")}
+	artifactRef := ""
+	if cl.kind == "oci" {
+		artifactRef, in.Repo, in.RefOk = reference(cl.repo, cl.refForm)
+	}
 	if cl.kind == "oci" {
 		in.Statements = a.stmts
 	} else {
@@ -1043,7 +1118,7 @@ func (sc *scenario) verify(cl call) (Input, Obs) {
 	var verr error
 	if cl.kind == "oci" {
 		outcome, verr = sc.v.Verify(context.Background(), target, env, notation.VerifierVerifyOptions{
-			ArtifactReference: cl.repo + "@" + target.Digest.String(), SignatureMediaType: media})
+			ArtifactReference: artifactRef, SignatureMediaType: media})
 	} else {
 		outcome, verr = sc.v.VerifyBlob(context.Background(),
 			func(digest.Algorithm) (ocispec.Descriptor, error) { return target, nil }, env,
@@ -1120,6 +1195,7 @@ type stressCall struct {
 // (package-level state, the store object, the verifier); each call has its own statement or
 // store and must see exactly that store.
 func runStress(c *common.Ctx, p *pki) {
+	storeNames, scopePool = storeNameSets[0], scopePools[0]
 	rounds, loadRounds := 250, 2500
 	if c.Thorough() {
 		rounds, loadRounds = 1200, 6000
@@ -1184,14 +1260,14 @@ func runStress(c *common.Ctx, p *pki) {
 				}
 				st := Stmt{Scopes: []string{"reg.example/load"}, TrustStores: []string{pl.ty + ":" + pl.name}, Level: "permissive"}
 				work[g] = append(work[g], stressCall{load: true, ty: pl.ty, name: pl.name, in: Input{Scheme: scheme, Chain: pl.certs,
-					Statements: []Stmt{st}, Repo: "reg.example/load", World: world, IdentityOk: true, Plugin: "none", Backend: "dir", Format: "jws",
+					Statements: []Stmt{st}, Repo: "reg.example/load", RefOk: true, World: world, IdentityOk: true, Plugin: "none", Backend: "dir", Format: "jws",
 					Kind: "load", History: note}})
 			}
 			continue
 		}
 		for k := 0; k < rounds; k++ {
 			sc := stressCall{scheme: pick(r, []string{"x509", "signingAuthority"}), chain: pick(r, chainNames), repo: stmts[r.Intn(len(stmts))].Scopes[0]}
-			sc.in = Input{Scheme: sc.scheme, Chain: chainIDs[sc.chain], Statements: stmts, Repo: sc.repo, World: world, IdentityOk: true,
+			sc.in = Input{Scheme: sc.scheme, Chain: chainIDs[sc.chain], Statements: stmts, Repo: sc.repo, RefOk: true, World: world, IdentityOk: true,
 				Plugin: "none", Backend: "dir", Format: "jws", Kind: "oci", History: note}
 			work[g] = append(work[g], sc)
 		}
@@ -1281,6 +1357,8 @@ func Run(c *common.Ctx) error {
 		c.Count(fmt.Sprintf("scenario: statements=%d", len(a.stmts)))
 		c.Count("scenario: backend=" + a.backend)
 		c.Count("scenario: statement-names=" + a.naming)
+		c.Count("scenario: scopes=" + scopePool[0] + ",..")
+		c.Count("scenario: store-names=" + storeNames[1] + ",..")
 		if a.malformed {
 			c.Count("scenario: malformed-values")
 			if sc.validated {
@@ -1301,6 +1379,9 @@ func Run(c *common.Ctx) error {
 			c.Count("result=" + o.Result)
 			c.Count("kind=" + cl.kind)
 			c.Count("plugin=" + cl.plugin)
+			if cl.kind == "oci" {
+				c.Count("reference=path" + cl.refForm + "@digest/ok=" + fmt.Sprint(in.RefOk))
+			}
 			c.Count("scheme=" + cl.scheme)
 			c.Count("format=" + a.format)
 			c.Count("chain=" + cl.chain)
